@@ -253,20 +253,23 @@ def gen_entries_queries(rng, comps, n_random):
     return out
 
 
+# Request orders for which `World::view_resources` does not compile in brood 0.9.1 (trait resolution
+# of the canonical containment fails); found by compiling all 60 permutations of 2-4 resources.
+# They cannot be simulated; recorded in DESIGN.md as an observation outside the run-time properties.
+UNCOMPILABLE_RESOURCE_ORDERS = {tuple(x.split()) for x in (
+    "P0 P2 P3 P1;P0 P3 P1 P2;P1 P2 P0;P1 P2 P0 P3;P1 P2 P3 P0;P1 P3 P0;P1 P3 P0 P2;P1 P3 P2 P0;P2 P0 P1;P2 P0 P1 P3;"
+    "P2 P0 P3 P1;P2 P1 P3 P0;P2 P3 P0;P2 P3 P0 P1;P2 P3 P1;P2 P3 P1 P0;P3 P0 P1;P3 P0 P1 P2;P3 P0 P2;P3 P0 P2 P1;"
+    "P3 P1 P0 P2;P3 P1 P2;P3 P1 P2 P0;P3 P2 P0 P1").split(";")}
+
+
 def gen_resource_views(rng):
-    out = []
-    # every subset in two orders with mixed mutability
-    for mask in range(1 << len(RESOURCES)):
-        rs = [r for i, r in enumerate(RESOURCES) if mask >> i & 1]
-        for rep in range(2):
-            order = rs[:]
-            if rep == 1:
-                if len(order) < 2:
-                    continue
-                rng.shuffle(order)
-                if order == rs:
-                    order.reverse()
-            out.append([(rng.choice([K_REF, K_MUT]), r) for r in order])
+    import itertools
+    out = [[]]
+    for k in (1, 2, 3, 4):
+        for perm in itertools.permutations(RESOURCES, k):
+            if perm in UNCOMPILABLE_RESOURCE_ORDERS:
+                continue
+            out.append([(rng.choice([K_REF, K_MUT]), r) for r in perm])
     return out
 
 
@@ -343,7 +346,8 @@ def main():
     rng.shuffle(entry_queries)
     entry_queries = entry_queries[: int(70 * scale)]
     entries_queries = gen_entries_queries(rng, comps, int(48 * scale))
-    resource_views = gen_resource_views(rng)
+    # Same resource-view sites for every registry (resources do not depend on the registry).
+    resource_views = gen_resource_views(random.Random(f"r7-{seed}-res"))
 
     o = []
     w = o.append
